@@ -973,6 +973,30 @@ static void gen_cipher_seeds(void)
 	rec[0] = TLS_record_application_data; rec[1] = 3; rec[2] = 3; rec[3] = (uint8_t)(l >> 8); rec[4] = (uint8_t)l;
 	pre[1] = 2; seedp("fz_tlsrec", "gcm_record_p2", pre, 3, rec, 5 + l);
 	pre[1] = 3; seedp("fz_tlsrec", "gcm_record_p3", pre, 3, rec, 5 + l);
+	{	/* plaintext-side seeds (p1 bit 2): the harness protects them itself */
+		uint8_t pt[5 + 16 + 256], iv[16];
+		SM4_KEY deck;
+		size_t blocks = (reclen - 5 - 16) / 16;
+		memcpy(pt, rec, 5); /* overwritten below: header of the CBC record */
+		CHECK(tls_record_encrypt(&hmac, &enc, FIXED_SEQ, plain, 5 + 37, rec, &reclen));
+		blocks = (reclen - 5 - 16) / 16;
+		memcpy(pt, rec, 5 + 16);
+		memcpy(iv, rec + 5, 16);
+		sm4_set_decrypt_key(&deck, FIXED_KEY);
+		sm4_cbc_decrypt_blocks(&deck, iv, rec + 5 + 16, blocks, pt + 5 + 16);
+		pre[1] = 4 | 0; pre[2] = 0; seedp("fz_tlsrec", "cbc_plain_p0", pre, 3, pt, reclen);
+		pre[1] = 4 | 1; seedp("fz_tlsrec", "cbc_plain_p1", pre, 3, pt, reclen);
+		/* content + fuzzer tail (padding), MAC inserted by the harness */
+		memcpy(pt + 5 + 16, plain + 5, 37);
+		memset(pt + 5 + 16 + 37, 10, 11);
+		pre[1] = 4 | 8 | 0; pre[2] = 11; seedp("fz_tlsrec", "cbc_plain_mac_p0", pre, 3, pt, 5 + 16 + 37 + 11);
+		pre[1] = 4 | 8 | 1; seedp("fz_tlsrec", "cbc_plain_mac_p1", pre, 3, pt, 5 + 16 + 37 + 11);
+		pt[0] = TLS_record_application_data; pt[1] = 3; pt[2] = 3;
+		pt[5] = TLS_record_handshake;
+		memcpy(pt + 6, plain + 5, 37);
+		pre[1] = 4 | 2; pre[2] = 3; seedp("fz_tlsrec", "gcm_plain_p2", pre, 3, pt, 5 + 1 + 37);
+		pre[1] = 4 | 3; seedp("fz_tlsrec", "gcm_plain_p3", pre, 3, pt, 5 + 1 + 37);
+	}
 }
 
 int main(int argc, char **argv)
